@@ -395,6 +395,10 @@ def sweep_cases(scripts, need, max_span=None):
                 extra += f" retry_at={nops + len(ctail)}"
             if kind == "mtbdd":
                 extra += f" tcap={1 << 10}"
+            if kind in ("bdd", "bcdd", "zbdd") and int(sid[1:]) % 3 == 1:
+                # the script runs inside a session of another manager: this thread then has no thread-local
+                # store state for the case's manager (shared allocation / release paths of the index manager)
+                extra += " nested=1"
             cases.append((ddgen.header(f"{sid}c{c}", kind, cap=c, cache=64, threads=threads, snap_each=True, extra=extra), full))
         if kind == "mtbdd":
             for t in range(0, n_terms + 2):
